@@ -1,0 +1,116 @@
+//go:build verif
+
+package iso7816
+
+// Contracts for gvc (contract-based deductive verification, see /verif/DESIGN.md).
+// This file contains comments only; it is compiled only under the build tag "verif"
+// and has no effect on the package.
+
+// ---------------------------------------------------------------- C17: ISO/IEC 7816-4 APDUs
+//
+// apdu7816 is written from ISO/IEC 7816-4 §5.1 (command-response pairs), not from the code:
+// short form iff Nc <= 255 and Ne <= 256; Lc absent when Nc = 0, one octet in short form,
+// 00 || 2 octets in extended form; Le absent when Ne = 0, one octet in short form (256 -> 00),
+// in extended form 2 octets when Lc is present, else 00 || 2 octets (65536 -> 0000).
+//
+//@ spec func ext(n int, ne int) bool { n > 255 || ne > 256 }
+//@ spec func lcEnc(n int, ne int) seq {
+//@     n <= 0 ? seq() : (!ext(n, ne) ? seq(n) : seq(0, n / 256, n % 256)) }
+//@ spec func leEnc(n int, ne int) seq {
+//@     ne <= 0 ? seq()
+//@   : !ext(n, ne) ? seq(ne % 256)
+//@   : n > 0 ? seq((ne / 256) % 256, ne % 256)
+//@   : seq(0, (ne / 256) % 256, ne % 256) }
+//@ spec func apdu7816(cla int, ins int, p1 int, p2 int, d seq, ne int) seq {
+//@     cat(seq(cla, ins, p1, p2), lcEnc(len(d), ne), d, leEnc(len(d), ne)) }
+//@ pred okCApdu(a *CApdu) { a != nil && len(a.data) <= 65535 && 0 <= a.le && a.le <= 65536 }
+
+//@ func NewCApdu
+//@   props C17
+//@   ensures result != nil && fresh(result)
+//@   ensures result.cla == cla && result.ins == ins && result.p1 == p1 && result.p2 == p2 && result.le == le
+//@   ensures result.data === data && len(result.data) == len(data)
+//@   assigns nothing
+//@   safety all
+
+//@ func (apdu *CApdu) IsExtended
+//@   props C17 C10
+//@   requires apdu != nil
+//@   ensures result == ext(len(apdu.data), apdu.le)
+//@   pure
+//@   safety all
+
+//@ func (apdu *CApdu) HaveLe
+//@   props C17 C10
+//@   requires apdu != nil
+//@   ensures result == (apdu.le > 0)
+//@   pure
+//@   safety all
+
+//@ func (apdu *CApdu) HaveData
+//@   props C17 C10
+//@   requires apdu != nil
+//@   ensures result == (len(apdu.data) > 0)
+//@   pure
+//@   safety all
+
+//@ func (apdu *CApdu) EncodeHeader
+//@   props C17 C10
+//@   requires apdu != nil
+//@   ensures result === seq(apdu.cla, apdu.ins, apdu.p1, apdu.p2)
+//@   ensures fresh(result)
+//@   assigns nothing
+//@   safety all
+
+//@ func (apdu *CApdu) EncodeLc
+//@   props C17
+//@   requires okCApdu(apdu)
+//@   ensures "lc-field": result === lcEnc(len(apdu.data), apdu.le)
+//@   ensures fresh(result)
+//@   assigns nothing
+//@   safety all
+
+//@ func (apdu *CApdu) EncodeLe
+//@   props C17
+//@   requires okCApdu(apdu)
+//@   ensures "le-field": result === leEnc(len(apdu.data), apdu.le)
+//@   ensures fresh(result)
+//@   assigns nothing
+//@   safety all
+
+//@ func (apdu *CApdu) Encode
+//@   props C17
+//@   requires okCApdu(apdu)
+//@   ensures "iso7816-4": result === apdu7816(apdu.cla, apdu.ins, apdu.p1, apdu.p2, apdu.data, apdu.le)
+//@   ensures fresh(result)
+//@   assigns nothing
+//@   safety all
+
+//@ func NewRApdu
+//@   props C17
+//@   ensures result != nil && fresh(result) && result.Status == status && result.Data === data
+//@   assigns nothing
+//@   safety all
+
+//@ func ParseRApdu
+//@   props C17 C11 C12
+//@   ensures "err-iff-short": (err == nil) == (len(data) >= 2)
+//@   ensures "split": err == nil ==> rapdu != nil && fresh(rapdu)
+//@                && rapdu.Status == data[len(data)-2]*256 + data[len(data)-1]
+//@                && rapdu.Data === data[:len(data)-2] && fresh(rapdu.Data)
+//@   ensures err != nil ==> rapdu == nil
+//@   assigns nothing
+//@   safety all
+
+//@ func (rApdu *RApdu) Encode
+//@   props C17
+//@   requires rApdu != nil
+//@   ensures "re-encode": result === cat(rApdu.Data, seq(rApdu.Status / 256, rApdu.Status % 256))
+//@   ensures fresh(result)
+//@   assigns nothing
+//@   safety all
+
+// Round trip: every response of at least two bytes re-encodes to itself (lemma over the two contracts).
+//@ lemma rapdu_roundtrip: forall b seq :: len(b) >= 2 && 0 <= b[len(b)-2] && b[len(b)-2] < 256 && 0 <= b[len(b)-1] && b[len(b)-1] < 256 ==>
+//@     cat(b[:len(b)-2], seq((b[len(b)-2]*256 + b[len(b)-1]) / 256, (b[len(b)-2]*256 + b[len(b)-1]) % 256)) === b
+//@   props C17
